@@ -583,7 +583,87 @@ func genMerkle(r *rand.Rand, emit func(core.Case), n int) {
 			}
 			ops = append(ops, verifyOp(rt, leaf, p, items))
 		}
+		if cnt == 0 || r.Intn(6) == 0 {
+			// structurally malformed proofs (no path at all) against this root, incl. the empty tree's root
+			for v := 0; v < 4; v++ {
+				leaf := rbytes(r, r.Intn(4))
+				var p merkle.Proof
+				p.LeafHash = leafHashOf(leaf)
+				switch r.Intn(5) {
+				case 0: // total 0
+				case 1:
+					p.Total, p.Index = 1, 1
+				case 2:
+					p.Total, p.Index = int64(1+r.Intn(5)), int64(r.Intn(3))
+					p.Aunts = nil
+				case 3:
+					p.Total = 1
+					p.Aunts = [][]byte{rbytes(r, 32)}
+				case 4:
+					p.Total, p.Index = int64(cnt), int64(cnt)
+				}
+				mutHist["malformed-no-path"]++
+				ops = append(ops, verifyOp(root, leaf, p, items))
+			}
+		}
 		emit(core.Case{Kind: "merkle", Ops: ops})
+	}
+}
+
+func leafHashOf(leaf []byte) []byte {
+	_, ps := merkle.ProofsFromByteSlices([][]byte{leaf})
+	return ps[0].LeafHash
+}
+
+// genHuge: items and parts around and above the 64 kB block-part size (buffer-size boundaries):
+// an item extended by extra bytes, or differing only beyond 64 kB, must not verify / be accepted.
+func genHuge(r *rand.Rand, emit func(core.Case), n int) {
+	sizes := []int{65535, 65536, 65537, 66000, 70001}
+	for c := 0; c < n; c++ {
+		cnt := 1 + r.Intn(3)
+		items := make([][]byte, cnt)
+		for i := range items {
+			items[i] = make([]byte, sizes[r.Intn(len(sizes))])
+			r.Read(items[i])
+		}
+		if cnt > 1 && r.Intn(2) == 0 { // two items agreeing on their first 64 kB
+			items[1] = append(append([]byte{}, items[0][:65536-1]...), rbytes(r, 1+r.Intn(40))...)
+		}
+		root, proofs := merkle.ProofsFromByteSlices(items)
+		ops := []string{"root items=" + hxList(items)}
+		for v := 0; v < 3; v++ {
+			i := r.Intn(cnt)
+			p := cloneProof(proofs[i])
+			leaf := items[i]
+			switch r.Intn(3) {
+			case 0:
+			case 1:
+				leaf = append(append([]byte{}, leaf...), rbytes(r, 1+r.Intn(50))...)
+				mutHist["leaf-extended"]++
+			case 2:
+				leaf = append([]byte{}, leaf...)
+				leaf[len(leaf)-1] ^= 1
+				mutHist["leaf-last-byte"]++
+			}
+			ops = append(ops, verifyOp(root, leaf, p, items))
+		}
+		// a part set whose parts are larger than 64 kB, a part offered with extra bytes appended
+		k := sizes[r.Intn(len(sizes))]
+		data := make([]byte, k+1+r.Intn(k))
+		r.Read(data)
+		ps := types.NewPartSetFromData(data, uint32(k))
+		ops = append(ops, fmt.Sprintf("new data=%s psize=%d", hx(data), k), fmt.Sprintf("hdr total=%d root=%s", ps.Total(), hx(ps.Hash())))
+		for i := 0; i < int(ps.Total()); i++ {
+			pt := ps.GetPart(i)
+			p := cloneProof(&pt.Proof)
+			if r.Intn(2) == 0 {
+				ops = append(ops, addOp(i, append(append([]byte{}, pt.Bytes...), rbytes(r, 1+r.Intn(49))...), p))
+				mutHist["part-extended"]++
+			}
+			ops = append(ops, addOp(i, pt.Bytes, p))
+		}
+		ops = append(ops, "done")
+		emit(core.Case{Kind: "huge", Ops: ops})
 	}
 }
 
@@ -752,6 +832,7 @@ func main() {
 			genPartSet(r, emit, n)
 			genTx(r, emit, n/2)
 			genConcurrent(r, emit, n/4)
+			genHuge(r, emit, n/40)
 		},
 		Exec:   execCase,
 		Oracle: oracle,
